@@ -66,7 +66,7 @@ func RunC04(rep *report.Report, tier string) {
 
 // RunC05Hist is the history half of C05.
 func RunC05Hist(rep *report.Report, tier string, dl time.Time) {
-	n, depth := 2, 5
+	n, depth := 2, 6
 	ids := Lattice
 	if tier == "thorough" {
 		n, depth = 3, 8 // (as deep as the budget allows: the search reports the depth it completed)
@@ -79,9 +79,9 @@ func RunC05Hist(rep *report.Report, tier string, dl time.Time) {
 	// different sessions: the decision table of isNewMaster through runElection.
 	all := append(append([]ID{}, Lattice...), Boundary...)
 	ls2 := MakeLetters(3, all, nil, nil, nil, nil)
-	seq := 2
+	seq := 3
 	if tier == "thorough" {
-		seq = 3
+		seq = 4
 	}
 	o2 := &Options{Letters: ls2, Sessions: 3, Checks: Checks{Election: true}}
 	// sessions are opened by a fixed prefix; then every sequence of announcements of length seq
